@@ -16,6 +16,12 @@ var mkC15 = func() []*sim.Mon { return []*sim.Mon{sim.MonC15()} }
 
 func init() {
 	replayers["C15"] = append(replayers["C15"], func(vals []int, keepLog bool) *sim.World {
+		if len(vals) > 0 && vals[0] == 0 { // the first draw selects the generator (TestC15)
+			return RunRestartedSolo(&ReplaySrc{Vals: vals[1:]}, mkC15(), keepLog)
+		}
+		if len(vals) > 0 {
+			vals = vals[1:]
+		}
 		return RunSoloScript(&ReplaySrc{Vals: vals}, mkC15(), keepLog, SoloShape{ClockSteps: true, HugePools: true}).S.W
 	})
 	replayers["C14"] = append(replayers["C14"], func(vals []int, keepLog bool) *sim.World {
@@ -28,14 +34,24 @@ func TestC15(t *testing.T) {
 	runProp(t, "C15", func(e *Env) func(*rapid.T) {
 		return func(t *rapid.T) {
 			src := &RapidSrc{T: t}
-			out := RunSoloScript(src, mkC15(), false, SoloShape{ClockSteps: true, HugePools: true})
-			w := out.S.W
-			for k, v := range out.Classes {
-				w.Stats[k] += v
+			var w *sim.World
+			var render func() string
+			if src.Intn("c15gen", 5) == 0 {
+				// a primary restarted with empty state whose peers hand it back what it said before (its own proposal
+				// included): whatever it proposes in this life, its own commitment is for that proposal (seeded change C15m)
+				w = RunRestartedSolo(src, mkC15(), false)
+				render = func() string { return RunRestartedSolo(&ReplaySrc{Vals: src.Rec[1:]}, mkC15(), true).Render() }
+			} else {
+				out := RunSoloScript(src, mkC15(), false, SoloShape{ClockSteps: true, HugePools: true})
+				w = out.S.W
+				for k, v := range out.Classes {
+					w.Stats[k] += v
+				}
+				render = func() string {
+					return RunSoloScript(&ReplaySrc{Vals: src.Rec[1:]}, mkC15(), true, SoloShape{ClockSteps: true, HugePools: true}).S.W.Render()
+				}
 			}
-			fatal := e.Report(w, src.Rec, func() string {
-				return RunSoloScript(&ReplaySrc{Vals: src.Rec}, mkC15(), true, SoloShape{ClockSteps: true, HugePools: true}).S.W.Render()
-			})
+			fatal := e.Report(w, src.Rec, render)
 			e.Case(FPInts(src.Rec), w.Stats["c15_nontrivial"] > 0, w.Stats, func() any { return sampleOf(w, src.Rec) })
 			if fatal != "" {
 				t.Fatalf("%s", fatal)
